@@ -525,6 +525,13 @@ theorem modify_eq_set_getD {β : Type} (l : List β) (i : Nat) (f : β → β) (
   rw [List.modify_eq_set, List.getD_eq_getElem?_getD, List.getElem?_eq_getElem h]
   simp
 
+/-- case analysis on a Boolean guard without naming it -/
+theorem ite_bool_cases {β : Type} (c : Bool) (x y r : β) (h1 : c = true → x = r) (h2 : c = false → y = r) :
+    (if c = true then x else y) = r := by
+  cases c
+  · simpa using h2 rfl
+  · simpa using h1 rfl
+
 theorem place1_none_lo (A : Axis K) (c t : K) (h : t + c < A.lo - ((1 : Nat) : K) / ((1000000000 : Nat) : K) * A.spacing) :
     place1 A c t = none := by
   simp only [place1, Smear.edgeTolFactor, h, if_true]
@@ -677,8 +684,6 @@ theorem addSameSpacedGrid_gen (Ls : Smear.Lattice K) (w : Ls.WF) (p : Part K) (g
       rw [hPY, placeAxis_eq_map, getD_map' _ _ _ (by rw [lTY]; exact hj) zero none]
     have ePZ : PZ.getD k none = place1 Ls.Z cZ tz := by
       rw [hPZ, placeAxis_eq_map, getD_map' _ _ _ (by rw [lTZ]; exact hk) zero none]
-    unfold sameStep
-    rw [ePX, ePY, ePZ]
     have hgl : (latOf Ls G).grid.length = (latOf Ls G).nx * (latOf Ls G).ny * (latOf Ls G).nz := lG
     have hol : (latOf (tempL Ls a b c) tg).grid.length =
         (latOf (tempL Ls a b c) tg).nx * (latOf (tempL Ls a b c) tg).ny * (latOf (tempL Ls a b c) tg).nz := htg
@@ -688,12 +693,11 @@ theorem addSameSpacedGrid_gen (Ls : Smear.Lattice K) (w : Ls.WF) (p : Part K) (g
     change (latOf (tempL Ls a b c) tg).rawGet (i : Int) (j : Int) (k : Int) = .ok (tg.getD (flat (2 * b + 1) (2 * c + 1) i j k) zero) at hraw
     rw [hfl] at hraw
     -- the edge test, whatever way the six comparisons are written and combined
-    split_ifs with hguard
+    refine ite_bool_cases _ _ _ _ (fun hguard => ?_) (fun hguard => ?_)
     · -- some axis misses the lattice: the node is skipped, and so it is in the model
-      simp only [Bool.or_eq_true, Bool.and_eq_true, decide_eq_true_eq, Bool.not_eq_true', decide_eq_false_iff_not,
-        not_lt, not_le] at hguard
+      simp only [Bool.or_eq_true, Bool.and_eq_true] at hguard
       have hnone : place1 Ls.X cX tx = none ∨ place1 Ls.Y cY ty = none ∨ place1 Ls.Z cZ tz = none := by
-        rcases hguard with h | h | h | h | h | h <;>
+        rcases hguard with h | h | h | h | h | h <;> have h := of_decide_eq_true h <;>
           first
             | exact Or.inl (place1_none_lo _ _ _ (by linarith))
             | exact Or.inl (place1_none_hi _ _ _ (by linarith))
@@ -701,14 +705,23 @@ theorem addSameSpacedGrid_gen (Ls : Smear.Lattice K) (w : Ls.WF) (p : Part K) (g
             | exact Or.inr (Or.inl (place1_none_hi _ _ _ (by linarith)))
             | exact Or.inr (Or.inr (place1_none_lo _ _ _ (by linarith)))
             | exact Or.inr (Or.inr (place1_none_hi _ _ _ (by linarith)))
+      unfold sameStep
+      rw [ePX, ePY, ePZ]
       rcases hnone with h | h | h <;> rw [h] <;> simp only [target_none1, target_none2, target_none3]
     · -- the node is deposited
-      simp only [Bool.or_eq_true, Bool.and_eq_true, decide_eq_true_eq, Bool.not_eq_true', decide_eq_false_iff_not,
-        not_or, not_lt, not_le] at hguard
+      simp only [Bool.or_eq_false_iff, Bool.and_eq_false_iff] at hguard
       obtain ⟨g1, g2, g3, g4, g5, g6⟩ := hguard
+      have g1 := not_lt.mp (of_decide_eq_false g1)
+      have g2 := not_lt.mp (of_decide_eq_false g2)
+      have g3 := not_lt.mp (of_decide_eq_false g3)
+      have g4 := not_lt.mp (of_decide_eq_false g4)
+      have g5 := not_lt.mp (of_decide_eq_false g5)
+      have g6 := not_lt.mp (of_decide_eq_false g6)
       have eX := place1_some Ls.X cX tx (by linarith) (by linarith)
       have eY := place1_some Ls.Y cY ty (by linarith) (by linarith)
       have eZ := place1_some Ls.Z cZ tz (by linarith) (by linarith)
+      unfold sameStep
+      rw [ePX, ePY, ePZ]
       have iX := clamp_inR Ls.X w.X (tx + cX)
       have iY := clamp_inR Ls.Y w.Y (ty + cY)
       have iZ := clamp_inR Ls.Z w.Z (tz + cZ)
@@ -768,11 +781,19 @@ theorem ofInt_nat (a : Nat) : (Gen.Smear.ofInt ((a : Nat) : Int) : K) = ((a : Na
   have : ¬ ((a : Int) < 0) := by omega
   simp [this]
 
-theorem natOfInt_nat (a : Nat) : Gen.Smear.natOfInt (2 * ((a : Nat) : Int) + 1) = .ok (2 * a + 1) := by
+theorem natOfInt_eq (i : Int) (n : Nat) (h : i = (n : Int)) : Gen.Smear.natOfInt i = .ok n := by
+  subst h
   unfold Gen.Smear.natOfInt
-  have : ¬ (2 * ((a : Nat) : Int) + 1 < 0) := by omega
-  simp only [this, if_false]
-  congr 1
+  have : ¬ ((n : Int) < 0) := by omega
+  simp only [this, if_false, Int.toNat_natCast]
+
+/-- `2 * num + 1` nodes, however the sum is written -/
+theorem natOfInt_nat (a : Nat) :
+    Gen.Smear.natOfInt (2 * ((a : Nat) : Int) + 1) = .ok (2 * a + 1) ∧
+    Gen.Smear.natOfInt (1 + 2 * ((a : Nat) : Int)) = .ok (2 * a + 1) ∧
+    Gen.Smear.natOfInt (((a : Nat) : Int) * 2 + 1) = .ok (2 * a + 1) ∧
+    Gen.Smear.natOfInt (1 + ((a : Nat) : Int) * 2) = .ok (2 * a + 1) := by
+  refine ⟨?_, ?_, ?_, ?_⟩ <;> exact natOfInt_eq _ _ (by push_cast; ring)
 
 theorem bind_eq_of_ok {α β : Type} {x : Except Err α} {v : α} {F : α → Except Err β} {r : Except Err β}
     (hx : x = .ok v) (hr : F v = r) : x.bind F = r := by
@@ -839,7 +860,7 @@ theorem addParticleData_gen (Ls : Smear.Lattice K) (w : Ls.WF) (g : List K) (hg 
       ⟨-(((c : Nat) : K) * Ls.Z.spacing), ((c : Nat) : K) * Ls.Z.spacing, 2 * c + 1⟩⟩ : Smear.Lattice K) = tempL Ls a b c := rfl
   unfold Gen.Smear.addParticleData
   simp only [s1, s2, s3, n1, n2, n3, cv, hnan, hra, hrb, hrc, Bool.or_self, Bool.false_eq_true, if_false, ite_false,
-    natOfInt_nat, bind_ok, ofInt_nat, initAttrs_gen, init_gen, hT, latOf_nx, latOf_ny, latOf_nz, tempL_Xn, tempL_Yn,
+    (natOfInt_nat _).1, (natOfInt_nat _).2.1, (natOfInt_nat _).2.2.1, (natOfInt_nat _).2.2.2, bind_ok, ofInt_nat, initAttrs_gen, init_gen, hT, latOf_nx, latOf_ny, latOf_nz, tempL_Xn, tempL_Yn,
     tempL_Zn, ite_self]
   -- reset unless add
   have hstart : (if (!add) = true then (Gen.Smear.reset (latOf Ls g)).bind fun t => Except.ok t else Except.ok (latOf Ls g))
@@ -913,6 +934,7 @@ theorem addParticleData_gen (Ls : Smear.Lattice K) (w : Ls.WF) (g : List K) (hg 
           rw [show N - q = (N - (q + 1)) + 1 by omega, List.replicate_succ]
         rw [hrep, set_mid _ _ _ _ _ lA.symm]
         simp
+        all_goals first | ring1 | (refine ⟨?_, ?_⟩ <;> ring1) | (refine ⟨?_, ?_, ?_⟩ <;> ring1)
     -- second loop: normalisation by the kernel sum when it is positive
     dsimp only
     simp only [latOf_nx, latOf_ny, latOf_nz, hTT, tempL_Xn, tempL_Yn, tempL_Zn]
@@ -952,10 +974,12 @@ theorem addParticleData_gen (Ls : Smear.Lattice K) (w : Ls.WF) (g : List K) (hg 
           have lA' : ((G1.take q).map (fun x => x / norm)).length = q := by simp [List.length_take]; omega
           rw [List.drop_eq_getElem_cons hq', getD_mid _ _ _ _ lA'.symm, set_mid _ _ _ _ _ lA'.symm]
           simp
+          all_goals first | ring1 | (refine ⟨?_, ?_⟩ <;> ring1) | (refine ⟨?_, ?_, ?_⟩ <;> ring1)
         · simp only [hpos, decide_false, Bool.false_eq_true, if_false]
           refine congrArg _ (congrArg _ ?_)
           rw [List.drop_eq_getElem_cons hq']
           simp
+          all_goals first | ring1 | (refine ⟨?_, ?_⟩ <;> ring1) | (refine ⟨?_, ?_, ?_⟩ <;> ring1)
     -- closest node, its coordinates, and the deposit
     obtain ⟨bw, hfc⟩ := findClosestIndices_gen (latOf Ls G) pt.x pt.y pt.z
     have cX := w.X.closest_lt pt.x
